@@ -1950,7 +1950,8 @@ func (c *RemoteClient) handleRequestResponse(ctx context.Context, message *Messa
 		}
 
 	case *Reject:
-		if msg.Hash == nil {
+		// A fee quote request has no hash, so neither has its reject.
+		if msg.Hash == nil && msg.MessageType != MessageTypeGetFeeQuotes {
 			logger.Info(ctx, "Received reject with no hash")
 			return nil
 		}
